@@ -18,7 +18,7 @@ Proof. unfold clean. cbn. intros -> ->. reflexivity. Qed.
 Definition badl (lim : mut) : eff -> bool := match lim with Pure => impure | _ => loud end.
 Definition lim_ok (lim : mut) : Prop := lim = Pure \/ lim = View.
 
-Definition all_ok (p : prog) : Prop := forall g, In g (funs p) -> fn_ok p g = true.
+Definition all_ok (p : prog) : Prop := forall g, In g (funs p) -> chk_stmt p g [] (fbody g) = true.
 
 Lemma loop_clean bad body i cnt : 
   bad Iter = false ->
@@ -152,8 +152,9 @@ Qed.
 
 Lemma check_all_ok p : check p = true -> all_ok p.
 Proof.
-  unfold check, all_ok. intros H g Hg. apply andb_prop in H. destruct H as [H _].
-  rewrite forallb_forall in H. auto.
+  unfold check, all_ok. intros H g Hg. apply andb_prop in H. destruct H as [H _]. apply andb_prop in H. destruct H as [H _].
+  rewrite forallb_forall in H. specialize (H g Hg). unfold fn_ok in H.
+  repeat (apply andb_prop in H; destruct H as [H ?]). exact H.
 Qed.
 
 Lemma view_no_write_lemma p : check p = true ->
